@@ -140,6 +140,30 @@ def session_cases(seed: int, n: int):
         yield pol, {"strict": r.random() < 0.3}, reqs
 
 
+def republish_cases(seed: int, n: int):
+    """one engine, two or three documents published one after the other (set_policy / update_policy), requests after each: the
+    compiled form in use is the one of the document in force — also when neither document can be fingerprinted (json.dumps
+    refuses a value in it), and also when the same document comes back"""
+    r = random.Random(seed)
+    shapes = [(a, t, i, at, e) for a in ACTS for t in TYPES for i in IDS for at in ATTRS for e in ("permit", "deny")]
+    for k in range(n):
+        pols = [{"algorithm": gen.choice(r, gen.ALGOS), "rules": [shape(*gen.choice(r, shapes), j) for j in range(r.randrange(1, 4))]}
+                for _ in range(r.randrange(2, 4))]
+        if r.random() < 0.3:
+            pols.append(pols[0])
+        base = dict(gen.choice(r, REQS[:2]))
+        reqs: list = []
+        for pi, pol in enumerate(pols):
+            if pi:
+                reqs.append({"__publish__": pol, "alias": r.random() < 0.5})
+            for _ in range(r.randrange(1, 3)):
+                q = dict(base)
+                if r.random() < 0.5:
+                    q["rattrs"] = gen.choice(r, [{"level": 1}, {"level": 2}, {}])
+                reqs.append(q)
+        yield pols[0], {"strict": r.random() < 0.2, "unserialisable": k % 2 == 0}, reqs
+
+
 def overlap_check(run: lib.Run, n: int) -> None:
     """two decisions overlapping on ONE compiled function: while decision A is in progress — at every call it makes to the matcher
     and right before it hands its selected rules to the evaluator — decision B (another request) runs to completion on the same
@@ -298,6 +322,7 @@ def run_cases(run: lib.Run, audit: dict, scale: int = 1):
     cases += list(gc.random_cases(run.seed * 7 + 3, (2000 if quick else 20000) * scale, sets=0.2, algo="explicit", hostile=0.05))
     res = gc.run_batch(cases, consts)
     sess = list(session_cases(run.seed * 13 + 5, (250 if quick else 2500) * scale))
+    sess += list(republish_cases(run.seed * 17 + 9, (150 if quick else 1500) * scale))
     sres = gc.run_sessions(sess, consts)
     run.count("session_requests", len(sres))
     res = res + sres
@@ -308,6 +333,10 @@ def run_cases(run: lib.Run, audit: dict, scale: int = 1):
         run.case([pol, req, cfg], nontrivial, {"policy": pol, "request": req, "cfg": cfg, "impl": out} if i >= n_enum and nontrivial else None)
         proj = (lambda o: ("raised",) if "raised" in o else (o["ok"]["effect"], o["ok"]["reason"] == "obligation_failed"))
         case = {"policy": pol, "request": req, "cfg": cfg, "impl": out, "model": model}
+        if "session" in extra:
+            # the answer was given by an engine that had answered other requests / been given other documents before: the whole session
+            s0 = sess[extra["session"]]
+            case["session"] = {"first_policy": s0[0], "cfg": s0[1], "items": s0[2]}
         if proj(out) != proj(model):
             run.disagreements.append(case)
         if extra.get("hyp_c03"):
@@ -369,6 +398,16 @@ def replay(run: lib.Run, audit: dict, path: str) -> int:
     import json
     rp = json.load(open(path))
     c = rp.get("case") or rp.get("first")
+    if "session" in c:
+        ss = c["session"]
+        rows = gc.run_sessions([(ss["first_policy"], ss["cfg"], ss["items"])], audit["facts"]["consts"])
+        bad = 0
+        for pol, req, cfg, out, model, extra in rows:
+            differs = extra.get("spec_c03") is False
+            bad += differs
+            print(("  DIFFERS " if differs else "  ok      ") + f"request={req} policy in force={pol}\n           impl={out.get('ok', out)}\n           model={model.get('ok', model) if isinstance(model, dict) else model}")
+        print("(one engine answered these in order" + ("; documents carried a value json.dumps refuses" if ss["cfg"].get("unserialisable") else "") + ")")
+        return 1 if bad else 0
     print("impl now:", real.run_guard(c["policy"], c["request"], c["cfg"]))
     print("recorded:", c["impl"], "model:", c["model"])
     return 0
